@@ -13,7 +13,8 @@ RULE = ("every library shorthand with >= 3 notes x every root (letter + 0..2 sha
         "accidental (enumerated); 0-, 1- and 2-note inputs (all 35^2 ordered pairs inside the interval-naming domain); "
         "Hypothesis 4..9-note inputs (random names; shorthand chord + extra note; two shorthand chords concatenated, "
         "truncated, rotated) x no_inversions x no_polychords; root-position polychords X|Y of two shorthand chords. "
-        "Non-trivial: rotation k >= 1, or >= 5 notes, or an input whose answer list is non-empty.")
+        "Non-trivial: rotation k >= 1, or >= 5 notes, or an input whose answer list is non-empty."
+        ' Also: the no_inversions forms are asked before the plain question; all seven notes of every key stacked in thirds from every degree in every rotation (and their six-note prefixes) for the never-raises / same-length clauses.')
 ASSUMPTIONS = [
     "the chord to recognise is built with from_shorthand itself (round-trip oracle); long names are compared with an "
     "own pinned copy of the shorthand-meaning table and own ordinals",
